@@ -135,6 +135,7 @@ def dm_case(rng):
 @register
 class CHECK(Check):
     pid = "C03"
+    module = "FairModel.Properties.C03X"  # base file + composition theorems (same namespace)
     technique = ("Lean 4 theorems: base rates = first-principles weighted ratios on every slice, the named/generated functions "
                  "= Frame+Aggregate composition read from tables LIFTED from _fairness_metrics.py/_generated_metrics.py/"
                  "_make_derived_metric.py; compiled-driver correspondence with the public fairlearn.metrics functions; the argument "
